@@ -264,7 +264,7 @@ pub fn propagate_input_expressions(
                 address: expression,
             } => {
                 // insert known input expressions
-                for (input_var, input_expr) in insertable_expressions.iter() {
+                for (input_var, input_expr) in sorted_by_variable(&insertable_expressions) {
                     expression.substitute_input_var(input_var, input_expr);
                 }
                 // expressions dependent on the assigned variable are no longer insertable
@@ -274,7 +274,7 @@ pub fn propagate_input_expressions(
             }
             Def::Store { address, value } => {
                 // insert known input expressions
-                for (input_var, input_expr) in insertable_expressions.iter() {
+                for (input_var, input_expr) in sorted_by_variable(&insertable_expressions) {
                     address.substitute_input_var(input_var, input_expr);
                     value.substitute_input_var(input_var, input_expr);
                 }
@@ -291,12 +291,26 @@ pub fn propagate_input_expressions(
             | Jmp::CallInd { target: expr, .. }
             | Jmp::Return(expr) => {
                 // insert known input expressions
-                for (input_var, input_expr) in insertable_expressions.iter() {
+                for (input_var, input_expr) in sorted_by_variable(&insertable_expressions) {
                     expr.substitute_input_var(input_var, input_expr);
                 }
             }
         }
     }
+}
+
+/// Returns the entries of the table of insertable expressions sorted by their variables.
+///
+/// An inserted expression may itself contain variables of the table
+/// (because expressions with a high recursion depth are not inserted into other expressions of the table).
+/// Thus the result of inserting all expressions of the table one after another depends on the iteration order,
+/// which has to be deterministic to get reproducible analysis results.
+fn sorted_by_variable(
+    insertable_expressions: &HashMap<Variable, Expression>,
+) -> Vec<(&Variable, &Expression)> {
+    let mut entries: Vec<(&Variable, &Expression)> = insertable_expressions.iter().collect();
+    entries.sort_by(|left, right| left.0.cmp(right.0));
+    entries
 }
 
 /// Merge subsequent assignments to the same variable to a single assignment to that variable.
